@@ -31,6 +31,17 @@ def cases(tier, rng):
             p["macros"].append(("ctw", ["rr"], ("seq", [("gate", "con", [("q", "rr", n - 1)])])))
             p["body"].append(("gate", "chi", [("num", rng.randrange(n))]))
             p["body"].append(("gate", "ctw", [("id", "q")]))
+        if bracket and i % 10 == 0:
+            # a busy gate (prepare_all / measure_all) inside a parallel block uses ALL qubits: it collides with any
+            # gate in a sibling branch
+            X = lambda k: ("gate", "X", [("q", "q", k)])
+            shape = (i // 10) % 3
+            if shape == 0:
+                p["body"] = [("par", [("gate", "prepare_all", []), X(0)]), ("gate", "measure_all", [])]
+            elif shape == 1:
+                p["body"] = [("gate", "prepare_all", []), ("par", [X(n - 1), ("gate", "measure_all", [])])]
+            else:
+                p["body"] = [("gate", "prepare_all", []), ("par", [X(0), ("seq", [("gate", "measure_all", []), ("gate", "prepare_all", [])])]), ("gate", "measure_all", [])]
         text = ref.to_text(p)
         try:
             ref.static_valid(p)
